@@ -49,6 +49,8 @@ func c20Templates() []*c20Tpl {
 		{"continue-in-switch", []string{"  switch (var(zflag)) {", "    case 1:", "      continue", "  }"}, 4},
 		{"continue-after-closed-loop", []string{"  do {", "    zcmd", "  } while (flag(zflag))", "  if (flag(zflag)) {", "    continue", "  }"}, 6},
 		{"continue-not-last", []string{"  while (flag(zflag)) {", "    continue", "    zcmd", "  }"}, 3},
+		{"continue-not-last-in-case-body", []string{"  while (flag(zflag)) {", "    switch (var(zflag)) {", "      case 1:", "        continue", "        zcmd", "    }", "  }"}, 5},
+		{"continue-not-last-in-default-body", []string{"  do {", "    switch (var(zflag)) {", "      default:", "        zcmd", "        continue", "        zcmd2", "      case 2:", "        zcmd", "    }", "  } while (flag(zflag))"}, 6},
 		{"continue-not-last-nested", []string{"  while (flag(zflag)) {", "    if (flag(zflag)) {", "      continue", "      zcmd", "    }", "  }"}, 4},
 	} {
 		v := v
